@@ -46,14 +46,14 @@ DEC = {"RETRY": RetryPolicy.RETRY, "NEXT": RetryPolicy.RETRY_NEXT_HOST, "RETHROW
 # which property a projected field speaks about
 FIELD_OWNER = {
     "cb": "C14", "eb": "C14", "dlv": "C14", "final": "C14", "result": "C14",
-    "timer": "C15", "deadline": "C15",
+    "timer": "C15", "deadline": "C15", "now": "C15", "due": "C15",
     "policyLog": "C16", "sentLog": "C16", "retries": "C16", "cl": "C16", "queue": "C16", "specLeft": "C16",
     "tried": "C17", "errs": "C17", "plan": "C17", "pool": "C17", "nhaErrors": "C17", "lastConn": "C17",
     "att": None, "epoch": None, "paging": None,
 }
 GROUPS = {
     "C14": ["cb", "eb", "dlv", "final", "result"],
-    "C15": ["timer"],
+    "C15": ["timer", "now", "due"],
     "C16": ["policyLog", "sentLog", "retries", "cl", "queue", "specLeft"],
     "C17": ["tried", "errs", "plan", "pool", "nhaErrors", "lastConn"],
     "rest": ["att", "epoch", "paging"],
@@ -145,11 +145,16 @@ def _on_block(obj, timeout):
 
 class ReqHarness:
     VARS = ("pool", "plan", "tried", "errs", "att", "sentLog", "policyLog", "retries", "cl", "specLeft", "timer",
-            "final", "result", "paging", "cb", "eb", "dlv", "queue", "epoch", "lastConn", "nhaErrors")
+            "final", "result", "paging", "cb", "eb", "dlv", "queue", "epoch", "lastConn", "nhaErrors", "now", "due")
 
-    def __init__(self, nhosts, pool, idem, spec, target, max_epoch=2, ids="default"):
+    def __init__(self, nhosts, pool, idem, spec, target, max_epoch=2, ids="default", tm=(0, 0)):
         self.n = nhosts
         self.ids = str(ids)
+        # (request timeout, speculative delay) in virtual seconds; (0, 0) = untimed (a timeout far beyond everything)
+        self.timed = tm[0] > 0
+        self.timeout = float(tm[0]) if self.timed else TIMEOUT
+        self.delay = float(tm[1]) if self.timed else SPEC_DELAY
+        self.interleave = 0               # how many queued _retry_task run right after the next submit of one
         self.max_epoch = max_epoch
         self.idem, self.spec, self.target = bool(idem), int(spec), int(target)
         self.world = SimWorld()
@@ -158,12 +163,13 @@ class ReqHarness:
         self.nodes = [self.world.add_node(FakeNode(a, tokens=["%02x" % (16 * i)])) for i, a in enumerate(self.addrs)]
         self.retry = ScriptedRetryPolicy()
         profile = ExecutionProfile(load_balancing_policy=FixedOrderPolicy(self.addrs), retry_policy=self.retry,
-                                   request_timeout=TIMEOUT,
-                                   speculative_execution_policy=ConstantSpeculativeExecutionPolicy(SPEC_DELAY, self.spec))
+                                   request_timeout=self.timeout,
+                                   speculative_execution_policy=ConstantSpeculativeExecutionPolicy(self.delay, self.spec))
         self.cluster = make_cluster(self.world, self.addrs[:1], execution_profiles={EXEC_PROFILE_DEFAULT: profile},
                                     conviction_policy_factory=NeverConvict)
         self.session = self.cluster.connect(wait_for_all_pools=True)
         self.cluster.executor.inline = False
+        self._tap_executor()
         self.hosts = {}
         for h in self.cluster.metadata.all_hosts():
             self.hosts[self.addrs.index(h.endpoint.address) + 1] = h
@@ -202,6 +208,24 @@ class ReqHarness:
             self.sent.append(p)
             return p
         node._queue = queue
+
+    def _tap_executor(self):
+        """The yield point right after session.submit(self._retry_task, ...): when the schedule says so, queued retry tasks
+        (oldest first) run there, i.e. on the executor thread while the loop thread is still inside its callback."""
+        ex = self.cluster.executor
+        orig = ex.submit
+
+        def submit(fn, *args, **kwargs):
+            fut = orig(fn, *args, **kwargs)
+            if getattr(fn, "__name__", "") == "_retry_task" and getattr(fn, "__self__", None) is self.fut:
+                while self.interleave > 0:
+                    self.interleave -= 1
+                    ts = self._retry_tasks()
+                    if not ts:
+                        break
+                    ex.run(ts[0])
+            return fut
+        ex.submit = submit
 
     def _condition(self, i, cond):
         host = self.hosts[i]
@@ -283,12 +307,14 @@ class ReqHarness:
     def act_AnsErr(self, act):
         p = self._attempt(act["a"])
         self.retry.script = (act["d"], act["c"])
+        self.interleave = int(act.get("_interleave", 0))
         k = act["k"]
         if k == "ConnectionShutdown":
             p.conn.socket_error()
         else:
             code, tail = ERR_WIRE[k]
             self._node_of(p).respond_error(p, code, "scripted " + k, tail())
+        self.interleave = 0
         if self.retry.script is not None:
             self.retry.script = None
             # the policy was not consulted: visible in policyLog
@@ -325,6 +351,9 @@ class ReqHarness:
         exc = ts[0].future.exception()
         if exc is not None:
             raise exc
+
+    def act_StoreErr(self, act):
+        pass                                # the loop-thread callback has run to its end inside act_AnsErr
 
     def act_StartNextPage(self, act):
         self.epoch += 1
@@ -412,7 +441,7 @@ class ReqHarness:
             return {"pool": pool, "plan": (), "tried": (), "errs": tuple("none" for _ in range(n)), "att": frozenset(),
                     "sentLog": (), "policyLog": (), "retries": 0, "cl": INIT_CL, "specLeft": self.spec, "timer": "none",
                     "final": "unset", "result": "unset", "paging": False, "cb": tuple(self.cb), "eb": tuple(self.eb),
-                    "dlv": tuple(self.dlv), "queue": (), "epoch": 1, "lastConn": 0, "nhaErrors": None}
+                    "dlv": tuple(self.dlv), "queue": (), "epoch": 1, "lastConn": 0, "nhaErrors": None, "now": 0, "due": 0}
         has_res = f._final_result is not ccluster._NOT_SET
         has_exc = f._final_exception is not None
         if has_res and has_exc:
@@ -467,7 +496,14 @@ class ReqHarness:
             "epoch": self.epoch,
             "lastConn": self._conn_host(f._connection),
             "nhaErrors": nha,
+            "now": self._t(self.world.clock.now - self.epoch_start) if self.timed else 0,
+            "due": self._t(f._timer.end - self.epoch_start) if self.timed and self._timer_kind(f._timer) in ("spec", "timeout") else 0,
         }
+
+    @staticmethod
+    def _t(x):
+        r = round(x, 6)
+        return int(r) if r == int(r) else r
 
     def _host_idx_addr(self, p):
         try:
@@ -490,7 +526,7 @@ class ReqHarness:
         f = self.fut
         if f is None or f._event.is_set():
             return None
-        deadline = self.epoch_start + TIMEOUT + SLACK + BORROW_WAIT * self.busy_hosts
+        deadline = self.epoch_start + self.timeout + SLACK + BORROW_WAIT * self.busy_hosts
         for _ in range(64):
             if f._event.is_set():
                 break
@@ -503,7 +539,7 @@ class ReqHarness:
         if not f._event.is_set():
             return {"deadline": {"spec": "complete", "code": "still incomplete after 64 timer firings"}}
         if self.world.clock.now > deadline + 1e-3:
-            return {"deadline": {"spec": "<= %.3f" % (TIMEOUT + SLACK), "code": "completed %.3fs after the start" % (self.world.clock.now - self.epoch_start)}}
+            return {"deadline": {"spec": "<= %.3f" % (self.timeout + SLACK), "code": "completed %.3fs after the start" % (self.world.clock.now - self.epoch_start)}}
         if not isinstance(f._final_exception, cassandra.OperationTimedOut) or f._final_result is not ccluster._NOT_SET:
             return {"final": {"spec": "OperationTimedOut", "code": self.project()["final"]}}
         return None
@@ -545,6 +581,9 @@ def spec_view(s):
         "epoch": s["epoch"],
         "lastConn": s["lastConn"],
         "nhaErrors": "n/a",
+        "now": s.get("now", 0), "due": s.get("due", 0),
+        "_pend": s["pend"]["host"] if "pend" in s else 0,
+        "_nhaCls": fn(s["nhaCls"]) if "nhaCls" in s else None,
     }
 
 
@@ -629,8 +668,9 @@ def _is_late(name, prev_final):
 def config_of(state):
     pool = state["pool"]
     pool = tuple(pool) if isinstance(pool, tuple) else tuple(pool[k] for k in sorted(pool))
+    tm = tuple(state["tm"]) if "tm" in state else (0, 0)
     return {"pool": [str(x) for x in pool], "idem": bool(state["idem"]), "spec": int(state["specLeft"]),
-            "target": int(state["target"]), "ids": str(state.get("ids", "default"))}
+            "target": int(state["target"]), "ids": str(state.get("ids", "default")), "tm": [int(tm[0]), int(tm[1])]}
 
 
 def _repair_page_timer(h):
@@ -653,17 +693,43 @@ def replay(nhosts, states, max_epoch=2, drain=True, log=None, resync=True):
     cfg = config_of(states[0])
     target = (cfg["target"], cfg["idem"])
     out = []
-    h = ReqHarness(nhosts, cfg["pool"], cfg["idem"], cfg["spec"], cfg["target"], max_epoch=max_epoch, ids=cfg["ids"])
+    h = ReqHarness(nhosts, cfg["pool"], cfg["idem"], cfg["spec"], cfg["target"], max_epoch=max_epoch, ids=cfg["ids"],
+                   tm=cfg["tm"])
     try:
         d = diff(spec_view(states[0]), h.project(), started=False)
         if d:
             return [_div(0, {"name": "Init"}, d, False, target)]
         prev_final = "unset"
+        folded = 0            # actions that the real objects already performed inside the preceding AnsErr
         for i, s in enumerate(states[1:], 1):
             act = {k: (str(v) if isinstance(v, str) else v) for k, v in dict(s["act"]).items()}
             late = _is_late(act["name"], prev_final)
+            if folded:
+                # a _retry_task that ran at the yield point after session.submit / the end of that callback (StoreErr)
+                folded -= 1
+                if s["pend"]["host"] != 0:
+                    prev_final = str(s["final"])
+                    continue            # still inside the loop-thread callback: nothing observable yet
+            elif s.get("pend", {"host": 0})["host"] != 0 and act["name"] == "AnsErr":
+                # the retry task is submitted and self._errors[host] not yet stored: the executor tasks the behaviour runs
+                # before StoreErr run at that yield point; the state is compared when the callback is through
+                k = 0
+                while i + 1 + k < len(states) and str(states[i + 1 + k]["act"]["name"]) == "RetryTask":
+                    k += 1
+                act["_interleave"] = k
+                folded = k + (1 if i + 1 + k < len(states) and str(states[i + 1 + k]["act"]["name"]) == "StoreErr" else 0)
+                try:
+                    h.do(act)
+                except Exception as ex:            # noqa: BLE001
+                    d = {"_raised": {"spec": "no exception", "code": "%s: %s" % (type(ex).__name__, ex)}}
+                    return out + [_div(i, act, d, late, target)]
+                prev_final = str(s["final"])
+                if i + folded >= len(states):
+                    return out          # the behaviour ends inside the callback: the real objects are already beyond it
+                continue
             try:
-                h.do(act)
+                if not (act["name"] in ("RetryTask", "StoreErr") and i > 1 and states[i - 1]["pend"]["host"] != 0):
+                    h.do(act)
             except HarnessRefusal as ex:
                 d = {"_refused": {"spec": "enabled", "code": str(ex)}}
                 d.update(diff(spec_view(states[i - 1]), h.project()))
@@ -678,10 +744,12 @@ def replay(nhosts, states, max_epoch=2, drain=True, log=None, resync=True):
             real = h.project()
             sv = spec_view(s)
             d = diff(sv, real)
-            if sv["final"] == "NoHostAvailable" and prev_final == "unset" and real["nhaErrors"] is not None:
-                want = tuple(sv["errs"])
-                if real["nhaErrors"] != want:
-                    d["nhaErrors"] = {"spec": want, "code": real["nhaErrors"]}
+            if sv["final"] == "NoHostAvailable" and sv["_pend"] == 0 and real["nhaErrors"] is not None and sv["_nhaCls"]:
+                # NoHostAvailable.errors lists every host it had to list when it was raised, with the class the entry had
+                # then or has now (the live map moves on with later answers)
+                bad = [j for j, c in enumerate(sv["_nhaCls"]) if c != "none" and real["nhaErrors"][j] not in (c, sv["errs"][j])]
+                if bad:
+                    d["nhaErrors"] = {"spec": tuple(sv["_nhaCls"]), "code": real["nhaErrors"]}
             if log is not None:
                 log.append((act, real))
             if d:
@@ -725,6 +793,7 @@ def post_of(p):
         "retries": p["retries"], "cl": p["cl"], "specLeft": p["specLeft"], "timer": p["timer"], "final": p["final"],
         "result": p["result"], "paging": p["paging"], "cb": list(p["cb"]), "eb": list(p["eb"]), "dlv": list(p["dlv"]),
         "queue": [list(x) for x in p["queue"]], "epoch": p["epoch"], "lastConn": p["lastConn"],
+        "now": p["now"], "due": p["due"],
     }
     if p["plan"] is not None:
         out["plan"] = list(p["plan"])
@@ -733,6 +802,7 @@ def post_of(p):
     return out
 
 
+TIME_CHOICES = ((0, 0), (0, 0), (5, 2), (4, 2), (1, 2))     # (timeout, speculative delay); (0, 0) = untimed
 ALL_CONDS = ("missing", "shutdown", "busy", "failing", "unwritable")
 RETRYABLE = ("ReadTimeout", "WriteTimeout", "Unavailable", "OverloadedErrorMessage", "IsBootstrappingErrorMessage",
              "ServerError", "ConnectionShutdown")
@@ -745,8 +815,12 @@ def record(rng, nhosts=3, max_events=14, max_retries=3, max_epoch=2, p_bad=0.25,
     spec = rng.choice((0, 1, 2))
     target = rng.choice(range(1, nhosts + 1)) if rng.random() < 0.15 else 0
     ids = rng.choice(("default", "zero", "one"))
-    h = ReqHarness(nhosts, pool, idem, spec, target, max_epoch=max_epoch, ids=ids)
-    events = [{"e": "Config", "pool": pool, "idem": idem, "spec": spec, "target": target, "ids": ids}]
+    tm = rng.choice(TIME_CHOICES) if "busy" not in pool else (0, 0)
+    if tm[0] > 0:
+        spec = rng.choice((0, 1, 2, 3))
+    h = ReqHarness(nhosts, pool, idem, spec, target, max_epoch=max_epoch, ids=ids, tm=tm)
+    events = [{"e": "Config", "pool": pool, "idem": idem, "spec": spec, "target": target, "ids": ids,
+               "budget": tm[0], "delay": tm[1]}]
     try:
         ev = {"e": "Start"}
         try:
@@ -792,7 +866,17 @@ def record(rng, nhosts=3, max_events=14, max_retries=3, max_epoch=2, p_bad=0.25,
                         d = rng.choice(ds)
                         c = rng.choice(cls) if d in ("RETRY", "NEXT") else NO_CL
                         ev = {"e": "AnsErr", "a": arg, "k": rng.choice(RETRYABLE), "d": d, "c": c}
-                        h.act_AnsErr(ev)
+                        if d in ("RETRY", "NEXT") and f._final_exception is None:
+                            # the retry task is submitted before self._errors[host] is stored: let 0..n queued retry
+                            # tasks run at that point (executor thread), then the callback ends (StoreErr)
+                            n = rng.choice((0, 0, 1, 1, 2))
+                            n = min(n, len(h._retry_tasks()) + 1)
+                            h.act_AnsErr(dict(ev, _interleave=n))
+                            events.append(ev)
+                            events.extend({"e": "RetryTask"} for _ in range(n))
+                            ev = {"e": "StoreErr"}
+                        else:
+                            h.act_AnsErr(ev)
                 else:
                     getattr(h, "act_" + op)(ev)
                 ev["post"] = post_of(h.project())
